@@ -634,6 +634,7 @@ esl_buffer_SetOffset(ESL_BUFFER *bf, esl_pos_t offset)
       bf->mode_is == eslBUFFER_MMAP    || 
       bf->mode_is == eslBUFFER_STRING)
     {
+      if (offset < 0 || offset > bf->n) ESL_EXCEPTION(eslEINVAL, "requested offset is beyond end of input");
       bf->baseoffset = 0;  	/* (redundant: just to assure you that state is correctly set) */
       bf->pos        = offset;
     }
